@@ -107,7 +107,7 @@ CHECKS = {
             "cap in a worker process (death, stack overflow or hang is attributed to the job); accepted inputs must yield bindings, "
             "rejected ones Err(ClangDiagnostic) carrying clang's message, path faults their specific error variant.",
             "Acceptance oracle is the clang 14 binary with the same arguments (-fno-spell-checking), calibrated per header on the "
-            "unmutated text; splice and identifier-substitution operators of the design are not built; quick tier takes every 16th header.",
+            "unmutated text; identifier/literal substitution (12 tokens at every identifier position of a 60-header subset) and splices (30-header subset) in the thorough tier; quick tier takes every 16th header.",
             "6/C12"),
     "C06": ("exploration",
             "exhaustive enumeration of the record family (<=2 members x attributes x struct/union, member-aligned variants) x 8 "
